@@ -61,7 +61,12 @@ func (e *legacyExtra) addResults(results flows.Results) {
 		sortedResults = append(sortedResults, result)
 
 	}
-	sort.SliceStable(sortedResults, func(i, j int) bool { return sortedResults[i].CreatedOn.Before(sortedResults[j].CreatedOn) })
+	sort.SliceStable(sortedResults, func(i, j int) bool {
+		if sortedResults[i].CreatedOn.Equal(sortedResults[j].CreatedOn) {
+			return sortedResults[i].Name < sortedResults[j].Name // results is a map so ties need a deterministic order
+		}
+		return sortedResults[i].CreatedOn.Before(sortedResults[j].CreatedOn)
+	})
 
 	// add each result in order
 	for _, result := range sortedResults {
